@@ -60,6 +60,8 @@ def check(run, tier, seed, replay=None):
                 ident = dc.ID_C08M if dc.has_missing_slice(sc) else dc.ID_C08
             if name == "shared" and dc.has_slices(sc):
                 ident = dc.ID_C08S
+            elif name == "shared":
+                ident = dc.handover_identity(sc, obs) or ident
             run.violation(ident, {"scenario": dl.slim(sc), "impl": dc.slim_obs(obs), "monitor": name}, True)
         if not agree and not concrete:
             run.violation("corr:C08/deployment model and implementation differ",
